@@ -122,3 +122,76 @@ Definition t_missing_field_statement : Prop :=
     (length (TMarshal p (ThStruct (fs1 ++ fs2)) (TvStruct (vs1 ++ vs2))) + tdepth (ThStruct (fs1 ++ fd :: fs2)) <= fuel)%nat ->
     TUnmarshal fuel p (ThStruct (fs1 ++ fd :: fs2)) (TMarshal p (ThStruct (fs1 ++ fs2)) (TvStruct (vs1 ++ vs2))) = TErr EMissing.
 (* (that a required field which is present is not reported is part of t_roundtrip_statement) *)
+(* and it is not reported when the field is not required: the field keeps its zero value *)
+Definition t_absent_optional_statement : Prop :=
+  forall p fs1 fd fs2 vs1 vs2 fuel,
+    ty_ok (ThStruct (fs1 ++ fd :: fs2)) = true -> length vs1 = length fs1 ->
+    tval_wf (ThStruct (fs1 ++ fs2)) (TvStruct (vs1 ++ vs2)) = true ->
+    has_flag (fld_flags fd) f_required = false ->
+    (length (TMarshal p (ThStruct (fs1 ++ fs2)) (TvStruct (vs1 ++ vs2))) + tdepth (ThStruct (fs1 ++ fd :: fs2)) <= fuel)%nat ->
+    exists r, TUnmarshal fuel p (ThStruct (fs1 ++ fd :: fs2)) (TMarshal p (ThStruct (fs1 ++ fs2)) (TvStruct (vs1 ++ vs2))) = TOk r /\
+              tnorm (ThStruct (fs1 ++ fd :: fs2)) r =
+              tnorm (ThStruct (fs1 ++ fd :: fs2)) (TvStruct (vs1 ++ zero_of (fld_ty fd) :: vs2)).
+
+(* ====================================================================== *)
+(* ---------- C08: a declared field carrying a different wire type ---------- *)
+(* Decoder.Decode after SetStrict(strict), with the trailing-bytes check of Unmarshal; TUnmarshal is TDecode false *)
+Definition TDecode (fuel : nat) (strict : bool) (p : proto) (t : tty) (b : bytes) : tres tval :=
+  tlet (v, r) <- dec fuel p t (if strict then f_strict else 0) (zero_of t) b in
+  match r with [] => TOk v | _ => TErr EOther end.
+(* the rule by which Marshal omits a field *)
+Definition field_omitted (fd : tfield) (x : tval) : bool :=
+  (match x with TvPtr None => true | _ => false end) || (negb (has_flag (fld_flags fd) f_required) && is_zero_t (fld_ty fd) x).
+
+(* The bytes are Marshal's for a CONFLICTING schema: the target's fields, except that the id of one declared field
+   (at any position) is declared with another type ft' (any flags fl'), so that the field arrives with a wire type
+   other than the declared one.  Either protocol.
+   strict mode: TypeMismatch, whenever the field is on the wire at all *)
+Definition t_mismatch_strict_statement : Prop :=
+  forall p fs1 id fl fl' ft ft' fs2 vs1 x vs2 fuel,
+    ty_ok (ThStruct (fs1 ++ TField id fl ft :: fs2)) = true -> ty_ok (ThStruct (fs1 ++ TField id fl' ft' :: fs2)) = true ->
+    type_of ft' <> type_of ft -> length vs1 = length fs1 ->
+    tval_wf (ThStruct (fs1 ++ TField id fl' ft' :: fs2)) (TvStruct (vs1 ++ x :: vs2)) = true ->
+    field_omitted (TField id fl' ft') x = false ->
+    (length (TMarshal p (ThStruct (fs1 ++ TField id fl' ft' :: fs2)) (TvStruct (vs1 ++ x :: vs2)))
+     + tdepth (ThStruct (fs1 ++ TField id fl ft :: fs2)) + tdepth (ThStruct (fs1 ++ TField id fl' ft' :: fs2)) <= fuel)%nat ->
+    TDecode fuel true p (ThStruct (fs1 ++ TField id fl ft :: fs2))
+      (TMarshal p (ThStruct (fs1 ++ TField id fl' ft' :: fs2)) (TvStruct (vs1 ++ x :: vs2))) = TErr EMismatch.
+(* non-strict mode: the field is skipped like an unknown field -- the declared field keeps its zero value, every other
+   field is decoded as usual (the value is consumed entirely), and the field counts as seen: no MissingField even when
+   the declared field is required *)
+Definition t_mismatch_skipped_statement : Prop :=
+  forall p fs1 id fl fl' ft ft' fs2 vs1 x vs2 fuel,
+    ty_ok (ThStruct (fs1 ++ TField id fl ft :: fs2)) = true -> ty_ok (ThStruct (fs1 ++ TField id fl' ft' :: fs2)) = true ->
+    type_of ft' <> type_of ft -> length vs1 = length fs1 ->
+    tval_wf (ThStruct (fs1 ++ TField id fl' ft' :: fs2)) (TvStruct (vs1 ++ x :: vs2)) = true ->
+    (has_flag fl f_required = true -> field_omitted (TField id fl' ft') x = false) ->
+    (length (TMarshal p (ThStruct (fs1 ++ TField id fl' ft' :: fs2)) (TvStruct (vs1 ++ x :: vs2)))
+     + tdepth (ThStruct (fs1 ++ TField id fl ft :: fs2)) + tdepth (ThStruct (fs1 ++ TField id fl' ft' :: fs2)) <= fuel)%nat ->
+    exists r, TDecode fuel false p (ThStruct (fs1 ++ TField id fl ft :: fs2))
+                (TMarshal p (ThStruct (fs1 ++ TField id fl' ft' :: fs2)) (TvStruct (vs1 ++ x :: vs2))) = TOk r /\
+              tnorm (ThStruct (fs1 ++ TField id fl ft :: fs2)) r =
+              tnorm (ThStruct (fs1 ++ TField id fl ft :: fs2)) (TvStruct (vs1 ++ zero_of ft :: vs2)).
+
+(* the same for the items of a list: a list value whose item type differs from the declared one gives TypeMismatch in
+   strict mode; otherwise it is consumed entirely, the previous value is kept, and decoding continues after it *)
+Definition t_mismatch_list_statement : Prop :=
+  forall p et et' v old flags fuel rest,
+    ty_ok (ThList et') = true -> tval_wf (ThList et') v = true -> type_of et' <> type_of et ->
+    (length (TMarshal p (ThList et') v) + tdepth (ThList et') <= fuel)%nat ->
+    dec fuel p (ThList et) flags old (TMarshal p (ThList et') v ++ rest) =
+      if has_flag flags f_strict then TErr EMismatch else TOk (old, rest).
+
+(* ====================================================================== *)
+(* Not proved yet (no theorem claims these; kept as a comment, nothing unproved is left in the files):
+
+   - unknown fields at any nesting depth: t_unknown_fields_statement widens the top-level struct only (the unknown
+     fields themselves are of any type and nesting). The nested form needs a relation between a wide and a narrow
+     (type, value) pair through lists, map values, pointers and struct fields, and the decoded value of a field
+     that is zero in the narrow value but written in the wide one (only tnorm-equal to the narrow decoding);
+     sloop_gen3 of ProofsC.v is general enough in the bodies (abstract body bytes with a decoding fact) but its
+     bookkeeping of decoded slots (cur_of) is tied to the omission rule of the narrow value.
+   - the set and map variants of t_mismatch_list_statement (item / key / value type mismatch): same proof as the list
+     (skip_items / skip_entries are the loops of skip, see sk_list_spec / sk_map_spec in ProofsC.v), with the
+     empty-collection special cases of the decoder (size 0 is accepted before the type check).
+   - prefixes (truncation) of alternative and widened encodings: ProofsC.v works with complete input only. *)
